@@ -528,6 +528,10 @@ func genPat(t *rapid.T, vocab []string, maxSeg int) Pat {
 			s.Name = fmt.Sprintf("p%d", np)
 			np++
 		}
+		if k == "*" {
+			// everything after the '*' is the wildcard's name, separators included ("/files/*rest/of/path") (r7)
+			s.Name += rapid.SampledFrom([]string{"", "", "", "/of/path", "/", "/:x"}).Draw(t, "wildcard-name-tail")
+		}
 		p = append(p, s)
 	}
 	return p
@@ -692,6 +696,9 @@ func Classify(c Case) (bool, []string) {
 	for _, p := range c.Pats {
 		prefix := ""
 		for _, s := range p {
+			if s.K == "*" && strings.Contains(s.Name, "/") {
+				labels["wildcard whose name contains a separator"] = true
+			}
 			key := prefix
 			bit := 1
 			if s.K != "l" {
